@@ -365,7 +365,7 @@ func propC15LQPipe(t veriflib.TB, outer *testing.T, cl *LQClient, c c15PipeCase)
 	var viol string
 	var nt bool
 	var classes, hist []string
-	synctest.Test(outer, func(st *testing.T) {
+	veriflib.Bubble(outer, "C15", "C15/lq-pipeline", c, func(st *testing.T) {
 		viol, nt, classes = c15RunLQPipe(cl, c, &hist)
 	})
 	if viol != "" {
